@@ -10,8 +10,22 @@
                   the run driver instantiates it with the stable insertion sort [isort], which
                   is what Go's pdqsort does for at most 12 elements.
    MaxInputs    : Go int, modelled as Z (may be zero or negative). *)
-From BU Require Import Lib.Bytes.
+From BU Require Import Lib.Bytes Gen.Xcoinset.
 Open Scope Z_scope.
+
+(* ---------- literals of the Go source (Gen/Xcoinset.v, regenerated from coins.go on every run) ----------
+   [mp_lit i] = the i-th integer literal of MinPriorityCoinSelector.CoinSelect in source order
+   (13 of them: make(..,0,..); -1; i := 0; cutoffIndex < 0; i+1; numLow := 1; ..+1 <= MaxInputs; i+1;
+   needValueAge > 0; % .. != 0; possibleCoins[0:..]; n := 0; ValueAge() == 0), [mi_lit] the only
+   literal of MinIndexCoinSelector.CoinSelect (n := 0).  The model takes from them the values the
+   theorems depend on; a missing literal reads as -7, which no proof survives. *)
+Definition mp_lit (i : nat) : Z := nth i lits_MinPriorityCoinSelector_CoinSelect (-7).
+Definition lit_numlow_start : Z := mp_lit 5.   (* for numLow := 1 *)
+Definition lit_topup_slack : Z := mp_lit 6.    (* numLow+(i-cutoffIndex)+1 <= MaxInputs *)
+Definition lit_need_pos : Z := mp_lit 8.       (* needValueAge > 0 *)
+Definition lit_rem_zero : Z := mp_lit 9.       (* needValueAge%numLow != 0 *)
+Definition lit_skip_va : Z := mp_lit 12.       (* possibleCoins[n].ValueAge() == 0 *)
+Definition lit_mi_start : Z := nth 0 lits_MinIndexCoinSelector_CoinSelect (-7).   (* for n := 0 *)
 
 Record coin := mkCoin { cid : N; cval : Z; cconfs : Z }.
 
@@ -108,7 +122,7 @@ Section Model.
         else Err 1
     end.
   Definition min_index (maxin minchange target : Z) (coins : list coin) : res coinset :=
-    mi_loop maxin minchange target 0 coins cs_empty.
+    mi_loop maxin minchange target lit_mi_start coins cs_empty.
 
   (* MinNumberCoinSelector / MaxValueAgeCoinSelector: copy, sort.Sort(sort.Reverse(..)), MinIndex *)
   Definition min_number (maxin minchange target : Z) (coins : list coin) : res coinset :=
@@ -123,7 +137,7 @@ Section Model.
   | BrExhausted               (* outer loop ran out of high coins: error *)
   | BrExtend                  (* MinNumber on the high coins succeeded, extension loop ran *)
   | BrTopUp (inner : branch)  (* all high coins + a recursive selection from the low coins *)
-  | BrFuel.                   (* out of fuel (excluded by the theorems) *)
+  | BrFuel.                   (* out of fuel, or a division by numLow = 0 (both excluded by the theorems) *)
 
   (* first index with ValueAge >= MinAvg *)
   Fixpoint find_cutoff (minavg : Z) (pc : list coin) (i : nat) : option nat :=
@@ -138,7 +152,7 @@ Section Model.
     | [] => s
     | x :: t =>
         if cs_num s >=? maxin then s                                   (* break *)
-        else if va x =? 0 then extend maxin minchange minavg target t s  (* continue *)
+        else if va x =? lit_skip_va then extend maxin minchange minavg target t s  (* continue *)
         else
           let s' := push x s in
           if (Z.quot (cs_tva s') (cs_num s') <? minavg) || negb (satisfies target minchange (cs_tv s'))
@@ -152,7 +166,7 @@ Section Model.
   Definition new_minavg (minavg : Z) (allhigh : coinset) (numlow : Z) : Z :=
     let need := w (w (minavg * (cs_num allhigh + numlow)) - cs_tva allhigh) in
     let q := Z.quot need numlow in
-    if (need >? 0) && negb (Z.rem need numlow =? 0) then w (q + 1) else q.
+    if (need >? lit_need_pos) && negb (Z.rem need numlow =? lit_rem_zero) then w (q + 1) else q.
 
   (* for numLow := 1; numLow <= cutoff && numLow+(i-cutoff)+1 <= MaxInputs; numLow++ ;
      [k] bounds the number of iterations (cutoff suffices); [hi] = possibleCoins[cutoff:i+1] *)
@@ -161,7 +175,8 @@ Section Model.
     match k with
     | O => None
     | S k' =>
-        if (numlow <=? cutoff) && (numlow + (Z.of_nat (length hi) - 1) + 1 <=? maxin) then
+        if (numlow <=? cutoff) && (numlow + (Z.of_nat (length hi) - 1) + lit_topup_slack <=? maxin) then
+          if numlow =? 0 then Some (BrFuel, Panic 8) else   (* needValueAge / int64(numLow) would panic: integer divide by zero *)
           let allhigh := new_coinset hi in
           let newtarget := w (target - cs_tv allhigh) in
           let newmax := if cs_num allhigh + numlow >? numlow then numlow else cs_num allhigh + numlow in
@@ -185,7 +200,7 @@ Section Model.
         | Ok highsel =>
             (BrExtend, Ok (extend maxin minchange minavg target low (new_coinset (cs_list highsel))))
         | _ =>
-            match topup rec maxin minchange minavg target cutoff low hi (Z.to_nat cutoff) 1 with
+            match topup rec maxin minchange minavg target cutoff low hi (Z.to_nat cutoff) lit_numlow_start with
             | Some r => r
             | None => outer rec maxin minchange minavg target cutoff low hi rest'
             end
@@ -220,7 +235,7 @@ Section Model.
     | [] => s
     | x :: t =>
         if cs_num s >=? maxin then s
-        else if va x =? 0 then extend_old f maxin minchange minavg target t s
+        else if va x =? lit_skip_va then extend_old f maxin minchange minavg target t s
         else
           let s' := push x s in
           if (Z.quot (cs_tva s') (cs_num s') <? minavg)
@@ -239,8 +254,9 @@ Section Model.
     | O => None
     | S k' =>
         if (numlow <=? cutoff) &&
-           (if fx_bound f then numlow + (Z.of_nat (length hi) - 1) + 1 <=? maxin
+           (if fx_bound f then numlow + (Z.of_nat (length hi) - 1) + lit_topup_slack <=? maxin
             else numlow + (Z.of_nat (length hi) - 1) <=? maxin) then
+          if numlow =? 0 then Some (BrFuel, Panic 8) else
           let allhigh := new_coinset hi in
           let newtarget := w (target - cs_tv allhigh) in
           let newmax := if cs_num allhigh + numlow >? numlow then numlow else cs_num allhigh + numlow in
@@ -263,7 +279,7 @@ Section Model.
         | Ok highsel =>
             (BrExtend, Ok (extend_old f maxin minchange minavg target low (new_coinset (cs_list highsel))))
         | _ =>
-            match topup_old f rec maxin minchange minavg target cutoff low hi (Z.to_nat cutoff) 1 with
+            match topup_old f rec maxin minchange minavg target cutoff low hi (Z.to_nat cutoff) lit_numlow_start with
             | Some r => r
             | None => outer_old f rec maxin minchange minavg target cutoff low hi rest'
             end
